@@ -32,6 +32,9 @@ type SnapOpts struct {
 	Skip     []string // path prefixes (exact dir names) not to descend into / list
 	MaxNodes int      // walk budget (default 400)
 	SymSize  bool     // compare symlink sizes
+	// SentMtime includes a modification time only when it is one of the executor's sentinels (SentinelTime: whole
+	// seconds long before the run): what a Chtimes set, on which object - never what the clock said. For comparing twins.
+	SentMtime bool
 }
 
 // Snapshot is a sorted list of records plus the problems met while walking (each is a C05 event).
@@ -80,6 +83,8 @@ func Snap(v avfs.VFS, root string, o SnapOpts) (s *Snapshot) {
 		}()
 		if o.Mtime {
 			r.Mtime = fi.ModTime().UnixNano()
+		} else if mt := fi.ModTime(); o.SentMtime && mt.Nanosecond() == 0 && mt.Unix() > 900_000_000 && mt.Unix() < 1_500_000_000 {
+			r.Mtime = mt.UnixNano()
 		}
 		switch r.Type {
 		case "f":
